@@ -38,7 +38,21 @@ C06T = [("Mc.Props.C06", "Mc.C06." + t) for t in ["C06_equal_no_write", "C06_pen
 C10T = [("Mc.Props.C10", "Mc.C10." + t) for t in ["C10_never_add_when_deleting", "C10_sync_noop", "C10_add_edit", "C10_remove_edit",
         "C10_should_finalize_iff", "C10_hook_choice_composite", "C10_hook_choice_decorator"]]
 
+C19T = [("Mc.Props.C19", "Mc.C19." + t) for t in ["C19_success_status", "C19_304_body", "C19_304_body_all_schedules", "C19_429", "C19_retry_table",
+        "C19_other_status_error", "C19_304_needs_inm", "C19_strict_table", "C19_plain_cache_untouched", "run_inv"]]
+
 PROPS = {
+    "C19": {
+        "theorems": C19T,
+        "streams": [{"pkg": "pkg/hooks", "test": "TestVerifHookCalls", "shards": 8, "n_quick": 4000, "n_thorough": 60000, "thorough_seeds": 2}],
+        "nontrivial": ["served-from-cache", "429", "concurrent"],
+        "rule": "real webhookExecutor.Call with a scripted HTTP client: 1-3 concurrent calls on the same cache key under a random interleaving of "
+                "enrich / round-trip / adjust steps x status codes x ETag and Retry-After headers x body classes (valid, unknown fields, duplicate fields, "
+                "invalid JSON) x strict/loose x cache empty / hit / expired; non-trivial = concurrent calls, a body served from the cache, or a 429; "
+                "distinct = distinct (mode, cache, schedule, answers) text",
+        "trusted_base": TB_COMMON + ["modelled not verified: net/http, sigs.k8s.io/json strict decoding (classified by the harness's four body classes), zcache (present/expired)"],
+        "assumptions": ["Retry-After dates are compared on whole seconds; byte-level decoding is library code compared through four representative bodies"],
+    },
     "C02": sync_prop(C04T[:1] + C04T[3:6] + C06T[-1:], ["create-child", "update-child", "delete-child", "apply-child", "create-revision", "update-revision", "delete-revision"],
                      "non-trivial = some child or ControllerRevision write was accepted", ["claim", "children", "revisions"]),
     "C04": sync_prop(C04T, ["update-child", "update-revision", "failed-update"],
